@@ -1,8 +1,8 @@
 package main
 
 import (
-	"go/ast"
 	"fmt"
+	"go/ast"
 	"go/token"
 	"go/types"
 	"math/bits"
@@ -87,9 +87,9 @@ func descendingFuncs(p *Prog) map[*ssa.Function]bool {
 
 // legalityBranch describes the InCheck filter found after a MakeMove.
 type legalityBranch struct {
-	If       *ssa.If
-	InCheck  *ssa.Call
-	LegalTo  *ssa.BasicBlock // successor taken when NOT in check
+	If        *ssa.If
+	InCheck   *ssa.Call
+	LegalTo   *ssa.BasicBlock // successor taken when NOT in check
 	IllegalTo *ssa.BasicBlock
 }
 
@@ -497,7 +497,7 @@ func genFieldInit(c *Ctx, rule string, fn *ssa.Function) {
 // ---- R4 castling geometry ----
 
 type castleFacts struct {
-	Side      int64             // chess.Short / chess.Long constant
+	Side      int64 // chess.Short / chess.Long constant
 	SideName  string
 	Mask      map[string]uint64 // "White"/"Black" -> castleMask
 	EmptyExpr string            // "mask-minus-king" | "mask>>1"
@@ -905,8 +905,8 @@ func c01R5(c *Ctx, p *Prog) {
 func init() {
 	addMutants(
 		Mutant{Name: "C01.R1-fallback-adopts-pseudo-legal", Prop: "C01", File: "search/search.go", Quick: true,
-			Old: "\t\t\t\t\t\tif !b.InCheck(b.STM.Flip()) { // legal\n\t\t\t\t\t\t\tmove = pseudo.Move\n\t\t\t\t\t\t\tb.UndoMove(pseudo.Move, r)\n\t\t\t\t\t\t\tbreak\n\t\t\t\t\t\t}\n\t\t\t\t\t\tb.UndoMove(pseudo.Move, r)\n",
-			New: "\t\t\t\t\t\tmove = pseudo.Move\n\t\t\t\t\t\tb.UndoMove(pseudo.Move, r)\n\t\t\t\t\t\tbreak\n",
+			Old:    "\t\t\t\t\t\tif !b.InCheck(b.STM.Flip()) { // legal\n\t\t\t\t\t\t\tmove = pseudo.Move\n\t\t\t\t\t\t\tb.UndoMove(pseudo.Move, r)\n\t\t\t\t\t\t\tbreak\n\t\t\t\t\t\t}\n\t\t\t\t\t\tb.UndoMove(pseudo.Move, r)\n",
+			New:    "\t\t\t\t\t\tmove = pseudo.Move\n\t\t\t\t\t\tb.UndoMove(pseudo.Move, r)\n\t\t\t\t\t\tbreak\n",
 			Expect: "C01.R1/search.(*Search).iterativeDeepen#MakeMove@1#filter"},
 		Mutant{Name: "C01.R1-qs-checks-wrong-side", Prop: "C01", File: "search/search.go", Quick: true,
 			Old: "\t\tr := b.MakeMove(m.Move)\n\n\t\tif b.InCheck(b.STM.Flip()) {", New: "\t\tr := b.MakeMove(m.Move)\n\n\t\tif b.InCheck(b.STM) {",
